@@ -274,7 +274,11 @@ fn check(acc: &mut Acc, case: u64, sc: &Scenario, inj: &Injected, out: &Outcome,
         if !clean && !inflight_open_cancelled {
             let last_unit = a.units.iter().rev().find(|u| u.end_log < exit_log && u.complete);
             if let Some(u) = last_unit {
-                if u.kind == UnitKind::Noidle {
+                // (not when the failure had already been handed to the caller that was in flight when it happened: the
+                // library keeps going after that, and a request arriving later is a LATER request, for which any error
+                // will do - after an end of stream on a line boundary the second look at the stream is a clean end)
+                let already_surfaced = calls.iter().any(|c| matches!(&c.end, Some((e, _, CallResult::ErrProtocol(_))) if *e < u.start_log));
+                if u.kind == UnitKind::Noidle && !already_surfaced {
                     let served = calls
                         .iter()
                         .filter(|c| c.call.caller != 99 && c.start_log < u.start_log && c.end.as_ref().map(|e| e.0 > u.start_log).unwrap_or(true))
